@@ -1,6 +1,122 @@
-"""C08 - users manage only themselves; administration needs admin rights (+U2F)."""
+"""C08 - users manage only themselves; administration needs admin rights (+U2F).
+Part 1 (KMGate): who may do what, as a decision table over the real routes.
+Part 2 (KMAdminCache): an administrator by GROUP is re-evaluated at least every five minutes while the directory answers:
+TLC-exhaustive design check + as-built negative control, TLC-simulated and systematic histories of membership changes,
+directory outages and time on the real IsAdminUser path (gitdb directory, real admin cache aged by rewriting its
+entries), TLC trace monitor."""
+import glob
+import json
+import os
+import re
+import engine as E
 import gate
+
+PROP = "C08"
+
+
+def _chk(u):
+    return {"op": "check", "user": u}
+
+
+def _tick(d):
+    return {"op": "tick", "d": d}
+
+
+def _set(u, b):
+    return {"op": "setmember", "user": u, "member": b}
+
+
+def systematic():
+    DD, DU = {"op": "dirdown"}, {"op": "dirup"}
+    out = [
+        ("removed-then-period", {"carol": True}, [_chk("carol"), _set("carol", False), _tick(4), _chk("carol"), _tick(1), _chk("carol"),
+                                                   _tick(5), _chk("carol"), _tick(5), _chk("carol")]),
+        ("offboarded-many-periods", {"carol": True, "dave": True}, [_chk("carol"), _chk("dave"), _set("carol", False)] +
+         sum([[_tick(5), _chk("carol"), _chk("dave")] for _ in range(4)], [])),
+        ("outage-keeps-then-recovers", {"carol": True}, [_chk("carol"), DD, _tick(5), _chk("carol"), _set("carol", False), _tick(5),
+                                                         _chk("carol"), DU, _tick(4), _chk("carol"), _tick(1), _chk("carol"), _tick(5), _chk("carol")]),
+        ("added-later", {"carol": False}, [_chk("carol"), _set("carol", True), _tick(4), _chk("carol"), _tick(1), _chk("carol"), _chk("root")]),
+        ("configured-always", {}, [_chk("root"), DD, _tick(5), _chk("root"), _chk("carol"), DU, _chk("carol")]),
+        ("flapping", {"dave": True}, [_chk("dave"), _set("dave", False), _tick(5), _chk("dave"), _set("dave", True), _tick(1), _chk("dave"),
+                                      _tick(4), _chk("dave"), _set("dave", False), DD, _tick(5), _chk("dave"), DU, _tick(5), _chk("dave")]),
+    ]
+    return [{"users": ["carol", "dave", "root"], "init": i, "steps": s, "origin": o} for o, i, s in out]
+
+
+def simulate(work, n, depth, seed):
+    args = ["-simulate", "file=sim/t,num=%d" % n, "-depth", str(depth), "-seed", str(seed)]
+    r = E.tlc(work, "Gen_KMAdminCache", "Gen_KMAdminCache.cfg", workers=1, timeout=600, tag="sim-admin", args=args)
+    files = sorted(glob.glob(os.path.join(r["dir"], "sim", "t_*")))
+    if not files:
+        os.makedirs(os.path.join(r["dir"], "sim"), exist_ok=True)
+        r = E.tlc(work, "Gen_KMAdminCache", "Gen_KMAdminCache.cfg", workers=1, timeout=600, tag="sim-admin", args=args)
+        files = sorted(glob.glob(os.path.join(r["dir"], "sim", "t_*")))
+    traces = []
+    for f in files:
+        acts = [json.loads(json.loads(m.group(1))) for m in re.finditer(r'^/\\ actj = (".*")$', open(f).read(), re.M)]
+        if not acts or acts[0]["op"] != "init":
+            continue
+        steps = [{k: v for k, v in a.items() if k in ("op", "user", "member", "d")} for a in acts[1:]]
+        # keep behaviours that ask at least twice
+        if sum(1 for s in steps if s["op"] == "check") >= 2:
+            traces.append({"users": ["carol", "dave", "root"], "init": acts[0]["member"], "steps": steps, "origin": "simulate"})
+    if not traces:
+        raise E.Inconclusive("no admin-cache behaviours generated:\n" + r["out"][-1500:])
+    return traces
+
+
+def admin_part(res, tier, seed, work):
+    cov = res.cov
+    E.tlc_mc(work, "KMAdminCache", "MC_KMAdminCache.cfg", cov, timeout=900)
+    if tier == "thorough":
+        E.tlc_mc(work, "KMAdminCache", "MC_KMAdminCache_thorough.cfg", cov, timeout=2400)
+    r = E.tlc(work, "KMAdminCache", "Neg_KMAdminCache_EmptyAnswerIsError.cfg", timeout=300, tag="neg-admin")
+    if not r["violated"]:
+        raise E.Inconclusive("negative control Neg_KMAdminCache_EmptyAnswerIsError found no violation")
+    n, depth = (30, 16) if tier == "quick" else (300, 24)
+    traces = systematic() + simulate(work, n, depth, seed)
+    E.log("%d admin-cache histories" % len(traces))
+    binary = E.build_harness(work)
+    known = E.load_known()
+
+    def execute(rows, tag):
+        cp = work.path("admin-cases-%s.ndjson" % tag)
+        E.write_ndjson(cp, rows)
+        epath, _ = E.run_harness(binary, "C08adm", work, cases=cp, events=work.path("admin-events-%s.ndjson" % tag), timeout=1500)
+        evs = E.read_ndjson(epath)
+        return evs, E.monitor(work, "Trace_KMAdminCache", "Trace_KMAdminCache.cfg", epath, cov)
+    evs, devs = execute(traces, "all")
+    checks = [e for e in evs if e["ev"] == "check"]
+    cov["admin_histories"] = len(traces)
+    cov["admin_checks"] = len(checks)
+    cov["admin_checks_granted"] = sum(1 for e in checks if e["out"]["verdict"])
+    cov["traces_validated_against_impl"] = cov.get("traces_validated_against_impl", 0) + len(traces)
+    cov["evaluations"] = cov.get("evaluations", 0) + len(checks)
+    if not cov["admin_checks_granted"] or cov["admin_checks_granted"] == len(checks):
+        raise E.Inconclusive("admin-cache driver is dead: %d of %d requests granted" % (cov["admin_checks_granted"], len(checks)))
+    by_trace = {}
+    for d in devs:
+        ev = evs[d["line"] - 1]
+        by_trace.setdefault(ev["trace"], []).append((d, ev))
+    if by_trace:
+        order = sorted(by_trace)
+        evs2, devs2 = execute([traces[t] for t in order], "confirm")
+        again = {(order[evs2[d["line"] - 1]["trace"]], evs2[d["line"] - 1].get("step"), tuple(d["guards"])) for d in devs2}
+        for t in order:
+            for d, ev in by_trace[t]:
+                if (t, ev.get("step"), tuple(d["guards"])) not in again:
+                    res.notes.append("admin-cache deviation in history %d step %s did not reproduce; ignored" % (t, ev.get("step")))
+                    continue
+                sig = {"action": "AdminCheck", "guards": d["guards"], "user_kind": "configured" if ev.get("args", {}).get("user") == "root" else "group"}
+                detail = {"history": traces[t], "event": ev}
+                if res.classify(sig, detail, known) == "violation":
+                    res.sample({"deviation": d, "event": ev})
 
 
 def run(tier, seed, work, replay):
-    return gate.run_gate("C08", tier, seed, work).finish()
+    res = gate.run_gate(PROP, tier, seed, work)
+    admin_part(res, tier, seed, work)
+    res.assumptions.append("group administrators: the directory is a gitdb user-info source on a local directory, an outage is an "
+                           "LDAP user-info source on a closed port; the 5 minute period is the one the harness passes to "
+                           "admincache.New (config.go builds the cache with the same literal)")
+    return res.finish()
